@@ -208,6 +208,14 @@ func (sr *seqRunner) runPath(trNo int, ops []GenOp) error {
 			return ki
 		},
 		maxCas: func() uint64 { return maxCas }}
+	x.topMark = func() uint64 {
+		// the flush markers are written to the collections in order: the last collection holds the newest CAS
+		_, cas, err := env.colls[collNames[len(collNames)-1]].GetRaw("~mark")
+		if err != nil {
+			return 0
+		}
+		return cas
+	}
 	if env.vdef == nil {
 		env.vdef = map[string]string{}
 	}
@@ -284,6 +292,18 @@ func (sr *seqRunner) runPath(trNo int, ops []GenOp) error {
 		if r.Cas != nil && r.Cas.raw > maxCas && r.Cls == "ok" && op.Op != "SetWithMeta" && op.Op != "DeleteWithMeta" {
 			maxCas = r.Cas.raw
 		}
+		if sr.aux {
+			// (before the feeds are flushed: the flush markers are writes of their own, and a view that has just been
+			// brought up to date over a marker no longer shows what it made of the operation itself)
+			// SQL queries and views of the target collection (a freshly built view at the end of the path)
+			for _, ao := range sr.observeAux(x, op.Coll, suffix, i == len(ops)-1, i%3 == 2 || i == len(ops)-1) {
+				js, _ := jsonNoRank(ao)
+				if prev, ok := prevAux[ao.C+"/"+ao.Kind]; !ok || prev != js || ao.Kind == "viewfresh" || ao.Kind == "viewlate" {
+					prevAux[ao.C+"/"+ao.Kind] = js
+					step.Aux = append(step.Aux, ao)
+				}
+			}
+		}
 		// live events: flush every feed with a marker write
 		lives, err := sr.collectLive(x, absKey, suffix)
 		if err != nil {
@@ -313,7 +333,7 @@ func (sr *seqRunner) runPath(trNo int, ops []GenOp) error {
 					}
 					ki.cur = cur
 				}
-				if cur > maxCas && cur < maxCas+(1<<23) {
+				if cur > maxCas && !x.foreign[cur] {
 					maxCas = cur
 				}
 				js, _ := jsonNoRank(d)
@@ -373,16 +393,6 @@ func (sr *seqRunner) runPath(trNo int, ops []GenOp) error {
 					}
 				}
 				step.Dump2 = append(step.Dump2, Dump2Obs{C: c, Start: tr.C(top), Evs: out})
-			}
-		}
-		if sr.aux {
-			// SQL queries and views of the target collection (a freshly built view at the end of the path)
-			for _, ao := range sr.observeAux(x, op.Coll, suffix, i == len(ops)-1, i%3 == 2 || i == len(ops)-1) {
-				js, _ := jsonNoRank(ao)
-				if prev, ok := prevAux[ao.C+"/"+ao.Kind]; !ok || prev != js || ao.Kind == "viewfresh" || ao.Kind == "viewlate" {
-					prevAux[ao.C+"/"+ao.Kind] = js
-					step.Aux = append(step.Aux, ao)
-				}
 			}
 		}
 		tr.Add(step)
